@@ -87,6 +87,7 @@ func main() {
 				}
 			}()
 			spec.Run(p, r, *tier)
+			rules.RunGeneric(id, p, r)
 		}()
 		fo := finishOpts(id, *tier, seed, *evDir, *repDir, *known, start, &spec)
 		if *tier == "thorough" {
